@@ -560,7 +560,9 @@ func StringProgs() []Prog {
 		one("StringN(0,3,4)", "str rej wide", func() *rapid.Generator[string] { return rapid.StringN(0, 3, 4) }, strContract(0, 3, 4, nil)),
 		one("StringOfN(RuneFrom(nil,Han),1,5,6)", "str rej", func() *rapid.Generator[string] { return rapid.StringOfN(rapid.RuneFrom(nil, unicode.Han), 1, 5, 6) },
 			strContract(1, 5, 6, func(r rune) bool { return unicode.Is(unicode.Han, r) })),
-		one("StringOfN(RuneFrom(é世),-4,-2,5)", "str rej", func() *rapid.Generator[string] { return rapid.StringOfN(rapid.RuneFrom([]rune{'é', '世'}), -4, -2, 5) },
+		one("StringOfN(RuneFrom(é世),-4,-2,5)", "str rej", func() *rapid.Generator[string] {
+			return rapid.StringOfN(rapid.RuneFrom([]rune{'é', '世'}), -4, -2, 5)
+		},
 			strContract(-1, -1, 5, func(r rune) bool { return r == 'é' || r == '世' })),
 		one("StringOf(RuneFrom(nil,Nd))", "str", func() *rapid.Generator[string] { return rapid.StringOf(rapid.RuneFrom(nil, unicode.Nd)) },
 			strContract(-1, -1, -1, func(r rune) bool { return unicode.Is(unicode.Nd, r) })),
